@@ -207,6 +207,12 @@ void eb_dbl_basic(eb_t r, const eb_t p) {
 		return;
 	}
 
+	if (fb_is_zero(p->x)) {
+		/* P = -P: the point of order two doubles to infinity. */
+		eb_set_infty(r);
+		return;
+	}
+
 	eb_dbl_basic_imp(r, p);
 }
 
